@@ -79,6 +79,19 @@ def variants(cfgname, ch_this, ch_other, ch_old, accepted_elsewhere=None):
             v["created_at_" + nm] = (auth("K1", ch_this, url, created_at=ca), exp)
         except Exception:
             pass
+    # sub-second ages: the bound is ten minutes, not "ten minutes after truncation to whole seconds" (third member = clock offset)
+    v["age_600.75"] = (auth("K1", ch_this, url, created_at=NOW - 600), None, 0.75)
+    v["age_-600.75"] = (auth("K1", ch_this, url, created_at=NOW + 600), None, -0.75)
+    v["age_599.75"] = (auth("K1", ch_this, url, created_at=NOW - 599), "K1", 0.75)
+    v["age_-599.25"] = (auth("K1", ch_this, url, created_at=NOW + 600), "K1", 0.75)
+    # urls that a careless normalisation maps onto the configured one
+    scheme, _, rest = url.partition("://")
+    other = "wss" if scheme == "ws" else "ws"
+    for nm, u in (("other_ws_scheme", other + "://" + rest), ("bare_host", rest), ("extra_w", scheme + "://w" + rest), ("extra_ws", scheme + "://ws" + rest),
+                  ("extra_ss", "wss://ss" + rest), ("extra_s_colon", scheme + "://s:" + rest), ("trailing_slash", url + "/"), ("double_slash", scheme + ":////" + rest),
+                  ("upper", url.upper()), ("leading_space", " " + url), ("trailing_space", url + " "), ("path", url + "/x"), ("userinfo", scheme + "://evil@" + rest)):
+        if u != url:
+            v["relay_" + nm] = (auth("K1", ch_this, u), None)
     v["tags_short_relay"] = (auth("K1", ch_this, url, tags=[["relay"], ["challenge", ch_this]]), None)
     v["tags_short_challenge"] = (auth("K1", ch_this, url, tags=[["relay", url], ["challenge"]]), None)
     v["tags_empty"] = (auth("K1", ch_this, url, tags=[]), None)
@@ -224,7 +237,8 @@ def run_variants(case):
             if ch is None:
                 viol.append({"case": cid, "clause": "challenge-sent", "sig": nm, "detail": "no AUTH challenge on connect"})
                 continue
-            payload, expected = variants(cfgname, ch, ch_other, ch_old, accepted)[nm]
+            payload, expected, *rest = variants(cfgname, ch, ch_other, ch_old, accepted)[nm]
+            clock_offset = rest[0] if rest else 0.0
             before = "none"
             if pre == "K2":
                 b.attempt(c, auth("K2", ch, url_of(cfgname)))
@@ -232,7 +246,11 @@ def run_variants(case):
                 if before != "K2":
                     viol.append({"case": cid, "clause": "valid-answer-authenticates", "sig": "pre|" + nm, "detail": "valid AUTH by K2 gave identity %r" % before})
                     continue
-            b.attempt(c, payload)
+            CLOCK.now = float(NOW) + clock_offset
+            try:
+                b.attempt(c, payload)
+            finally:
+                CLOCK.now = float(NOW)
             n += 1
             after = b.identity(c)
             if expected == "free":
